@@ -292,6 +292,10 @@ var admitDims = map[string]struct {
 	"commit":    {[]string{"ac", "ac", "ac", "close", "ao"}, []string{"ccf"}, nil, []string{"rc"}},
 	"fillbids":  {[]string{"ao", "us", "us", "close"}, []string{"caf", "ssf"}, nil, []string{"ra"}},
 	"fillasks":  {[]string{"ao", "us", "us", "close"}, []string{"cbf", "bsf"}, []string{"bsr"}, []string{"rb"}},
+	// fills with resting orders: the seller ratios matter too (the fee on the summed price of a
+	// fill of bids; the fee of every named ask of a fill of asks)
+	"fillbidsfull": {[]string{"ao", "us", "us", "close"}, []string{"caf", "ssf"}, []string{"ssr"}, []string{"ra"}},
+	"fillasksfull": {[]string{"ao", "us", "us", "close"}, []string{"cbf", "bsf"}, []string{"bsr", "bsr", "ssr"}, []string{"rb"}},
 }
 
 // step generates one authority message that matters for the op, given the entries so far;
